@@ -75,6 +75,10 @@ theorem dipole_is_point_dipole (m x : V3 ℝ) (hx : Kern.norm x ≠ 0) :
   simp only [dipoleH, n, ofNat_real, Nat.cast_ofNat, pi_real]
   generalize Kern.norm x = r at *
   apply V3.ext' <;> simp [vs, vd] <;> field_simp
+-- (audit) this theorem only rewrites r·r·r·r·r as r⁵ and /4/π as ·1/(4π): it restates the definition of the kernel (which IS the
+-- point-dipole formula the property names); the hypothesis is satisfiable, and it is not even needed (x/0 = 0 on both sides)
+example : Kern.norm (⟨0, 0, 1⟩ : V3 ℝ) ≠ 0 := by simp [Kern.norm]
+
 /-- the Biot–Savart integrand `dl × r / |r|³` at parameter `s ∈ [0,1]` along the segment p1 → p2:
 `dl = (p2 − p1) ds`, `r = po − (p1 + s (p2 − p1))` -/
 noncomputable def bsIntegrand (p1 p2 po : V3 ℝ) (s : ℝ) : V3 ℝ :=
@@ -155,6 +159,35 @@ theorem integral_seg_pos (d a b : ℝ) (hd : 0 < d) (hab : a < b) :
 
 example : (0 : ℝ) / (1^2 * Real.sqrt (0^2 + 1^2)) < 1 / (1^2 * Real.sqrt (1^2 + 1^2)) :=
   seg_antiderivative_strictMono 1 one_pos one_pos
+
+/-- (added by the audit) `hasDerivAt_seg`, `integral_seg`, `seg_antiderivative_strictMono` and `integral_seg_pos` above are
+calculus facts about a stand-alone real formula; none of them mentions the model.  This is the consequence their docstrings
+promise, stated about the kernel the driver runs: off its carrier line the field of a segment carrying a non-zero current
+is not the zero vector. -/
+theorem segmentH_ne_zero (cur : ℝ) (hc : cur ≠ 0) (p1 p2 po : V3 ℝ)
+    (hoff : 0 < SegBS.nsq (V3.cross (p2 - p1) (po - p1))) :
+    segmentH cur p1 p2 po ≠ ⟨0, 0, 0⟩ := by
+  rw [SegBS.segmentH_eq p1 p2 po cur hoff]
+  have hK : 0 < SegBS.K p1 p2 po := by
+    rw [SegBS.K_eq_integral]
+    apply intervalIntegral.intervalIntegral_pos_of_pos_on
+    · exact (SegBS.fK_continuous p1 p2 po hoff).intervalIntegrable _ _
+    · intro s _
+      have h := SegBS.q_pos p1 p2 po hoff s
+      unfold SegBS.fK
+      have := Real.sqrt_pos.mpr h
+      positivity
+    · norm_num
+  have hk : cur / (4 * Real.pi) * SegBS.K p1 p2 po ≠ 0 :=
+    mul_ne_zero (div_ne_zero hc (by positivity)) hK.ne'
+  intro h
+  have hx := congrArg V3.x h; have hy := congrArg V3.y h; have hz := congrArg V3.z h
+  simp only [vs] at hx hy hz
+  have cx := (mul_eq_zero.mp hx).resolve_left hk
+  have cy := (mul_eq_zero.mp hy).resolve_left hk
+  have cz := (mul_eq_zero.mp hz).resolve_left hk
+  simp only [SegBS.nsq, cx, cy, cz, mul_zero, add_zero] at hoff
+  exact lt_irrefl _ hoff
 /-- the Biot–Savart integrand `dl × r / |r|³` of a circular loop of radius `r0` in the plane z = 0, at loop angle `φ`, for
 an observer `(0, 0, z)` on the axis: `dl = r0 (−sin φ, cos φ, 0) dφ`, `r = (0,0,z) − r0 (cos φ, sin φ, 0)` -/
 noncomputable def loopIntegrandAxis (r0 z φ : ℝ) : V3 ℝ :=
@@ -208,6 +241,10 @@ theorem circle_on_axis_is_biot_savart (fuel : Nat) (d cur z : ℝ) (hd : d ≠ 0
     rw [this]
     field_simp
     ring
+
+-- non-vacuity (audit): loop of diameter 2 with unit current, observer at the centre: H = (0, 0, I/(2 r0)) = (0, 0, 1/2).
+-- Note the quantifier: observers exactly ON THE AXIS only (a set of measure zero); off the axis nothing is proved for Circle.
+example : bhjmCircle 0 .H (2 : ℝ) 1 ⟨0, 0, 0⟩ = some ⟨0, 0, 1 / 2⟩ := by simp [bhjmCircle, n]
 
 /-! ### Cuboid: the closed form of `magnet_cuboid_Bfield` is the Coulombian surface-charge integral
 
@@ -339,11 +376,22 @@ theorem cuboid_wrapper_is_coulomb_integral (dim pol p : V3 ℝ) (hdx : 0 < dim.x
       refine ⟨?_, trivial⟩
       apply V3.ext' <;> simp [vd, zero3, n]
 
--- non-vacuity: 2×2×2 cuboid, observers far outside, in another octant, and strictly inside
+-- non-vacuity: 2×2×2 cuboid; the three shell hypotheses for ONE observer (3, -1/2, -1/4) (outside, another octant)
 open MagpyVerif.CuboidCoulomb in
 example : rtol * ((2 : ℝ) / 2) ≤ |(|(3 : ℝ)| - 2 / 2)| ∧ rtol * ((2 : ℝ) / 2) ≤ |(|(-1 / 2 : ℝ)| - 2 / 2)| ∧
     rtol * ((2 : ℝ) / 2) ≤ |(|(-1 / 4 : ℝ)| - 2 / 2)| := by
   unfold rtol
   refine ⟨?_, ?_, ?_⟩ <;> norm_num [abs_of_pos, abs_of_neg]
+
+-- … and (audit) an observer strictly INSIDE: all hypotheses hold and the polarization term is added
+open MagpyVerif.CuboidCoulomb in
+example : bhjmCuboid .B (⟨2, 2, 2⟩ : V3 ℝ) ⟨0, 0, 1⟩ ⟨1 / 2, 1 / 3, -1 / 4⟩ =
+    cuboidCoulombB ⟨2, 2, 2⟩ ⟨0, 0, 1⟩ ⟨1 / 2, 1 / 3, -1 / 4⟩ + ⟨0, 0, 1⟩ := by
+  have h := (cuboid_wrapper_is_coulomb_integral (⟨2, 2, 2⟩ : V3 ℝ) ⟨0, 0, 1⟩ ⟨1 / 2, 1 / 3, -1 / 4⟩
+    (by norm_num) (by norm_num) (by norm_num)
+    (by unfold rtol; norm_num [abs_of_pos, abs_of_neg]) (by unfold rtol; norm_num [abs_of_pos, abs_of_neg])
+    (by unfold rtol; norm_num [abs_of_pos, abs_of_neg])).2
+  rw [h, if_pos]
+  norm_num [abs_of_pos, abs_of_neg]
 
 end MagpyVerif.C01
